@@ -33,6 +33,29 @@ def add(x, y=10):
 @dag
 def shared(x):
     return dbl(inc(x))
+
+class Model:
+    def __init__(self, k):
+        self.k = k
+
+    @xn(resource=M)
+    def scale(self, x):
+        return self.k * x
+
+m1, m2 = Model(10), Model(1000)
+
+@xn(setup=True, resource=M)
+def prep():
+    return 100
+
+@xn(resource=M)
+def use(p, x):
+    T.rendezvous()  # (only in scenarios that ask for it) two calls in flight at the same time meet here
+    return p + x
+
+@dag
+def shared_s(x):
+    return use(prep(), x)
 '''
 
 BUILD_SRC = {
@@ -84,7 +107,19 @@ def d_fail_nested(x):
     # documented RuntimeError raised INSIDE the nested-DAG call (an inner node already has its own flag)
     return flagged_inner(a, True, twz_active=a)
 '''
-DAG_NAME = {"build_fail_nested": "d_fail_nested", "build_fail": "d_fail", "build": "d_build", "build2": "d_build2", "build_pause": "d_pause", "build_nest": "d_nest"}
+BUILD_SRC["build_method"] = '''
+@dag
+def d_method(x):
+    # the bound method is looked up BEFORE its argument list is evaluated; the build pauses in between
+    return m1.scale(T.pause_value(inc(x)))
+'''
+BUILD_SRC["build_method2"] = '''
+@dag
+def d_method2(x):
+    a = m2.scale(x)
+    return m2.scale(a)
+'''
+DAG_NAME = {"build_method": "d_method", "build_method2": "d_method2", "build_fail_nested": "d_fail_nested", "build_fail": "d_fail", "build": "d_build", "build2": "d_build2", "build_pause": "d_pause", "build_nest": "d_nest"}
 
 NS: Dict[str, Any] = {}
 
@@ -118,6 +153,13 @@ def do_op(op: tuple, out: list) -> None:
             loc = dict(ns)
             exec(compile(BUILD_SRC[kind], f"<c16-{kind}>", "exec"), loc)  # noqa: S102
             out.append(("built", loc[DAG_NAME[kind]]))
+        elif kind == "call_s":
+            out.append(("ok", repr(ns["shared_s"](op[1]))))
+        elif kind == "bare_method":
+            with warnings.catch_warnings(record=True) as w:
+                warnings.simplefilter("always")
+                v = ns["m2"].scale(op[1])
+            out.append(("ok", repr(v), tuple(sorted({type(x.message).__name__ for x in w}))))
         elif kind == "bare":
             with warnings.catch_warnings(record=True) as w:
                 warnings.simplefilter("always")
@@ -158,7 +200,16 @@ SCENARIOS: Dict[str, List[List[tuple]]] = {
     "call||bare": [[("call", 1)], [("bare", 3)]],
     "failed_build_then_call||build_pause": [[("build_fail",), ("call", 1), ("bare", 4)], [("build_pause",)]],
     "failed_build_then_build||build_pause": [[("build_fail",), ("build",)], [("build_pause",), ("call", 2)]],
+    # decorated METHODS: a build that pauses between looking the bound method up and calling it, next to uses of the same method of
+    # another instance (outside any DAG, and in another build)
+    "build_method||bare_method": [[("build_method",)], [("bare_method", 3)]],
+    "build_method||build_method2": [[("build_method",)], [("build_method2",)]],
+    # two calls of one DAG (its setup node already executed) whose nodes need each other to be running at the same time
+    "call_s||call_s+rendezvous": [[("call_s", 1)], [("call_s", 2)]],
+    "call_s||call_s": [[("call_s", 1)], [("call_s", 2)]],
 }
+RENDEZVOUS = {"call_s||call_s+rendezvous": 2}
+PRE_SETUP = {"call_s||call_s+rendezvous", "call_s||call_s"}
 BARE_BEHAVIOURS = ["ignore", "warning", "error"]
 
 
@@ -180,8 +231,10 @@ def cases(tier: str):
                 yield dict(scenario=name, behaviour=beh, mode="line", preempt=1 if q else 2, part=part, parts=parts)
 
 
-def run_scenario(ops: List[List[tuple]], prefix, line_mode: bool):
+def run_scenario(ops: List[List[tuple]], prefix, line_mode: bool, rv: int = 0, pre_setup: bool = False):
     outs: List[list] = [[] for _ in ops]
+    if pre_setup:
+        lib()["shared_s"].setup()
 
     def body(i):
         def f():
@@ -194,6 +247,8 @@ def run_scenario(ops: List[List[tuple]], prefix, line_mode: bool):
 
     repo = os.environ.get("VERIF_REPO", "/repo")
     s = T.TSched([body(i) for i in range(len(ops))], prefix, line_mode, os.path.realpath(repo) + "/tawazi/")
+    if rv:
+        s.rv = T.Rendezvous(rv)
     s.run()
     final = [[finalize(o) for o in out] for out in outs]
     s.final = final
@@ -259,7 +314,7 @@ def run_case(acc, c, only_prefix=None):
         line = c["mode"] == "line"
 
         def run_one(prefix):
-            return run_scenario(ops, prefix, line)
+            return run_scenario(ops, prefix, line, RENDEZVOUS.get(c["scenario"], 0), c["scenario"] in PRE_SETUP)
 
         outcomes = set()
         it = [(tuple(only_prefix), run_one(tuple(only_prefix)))] if only_prefix is not None else \
